@@ -158,11 +158,49 @@ theorem explicitThrough_noBuffer (outer : List LayerCfg) (e : Bool) (hb : ¬ has
     have h2 : ¬ hasBuffer ls := fun ⟨x, hx, e⟩ => hb ⟨x, by simp [hx], e⟩
     rw [explicitThrough_other l ls e h1, ih h2]
 
+theorem hget_cookie1 (l : LayerCfg) (hs : List Header) (key : String) (hk : key ≠ "Set-Cookie") :
+    hget (cookieOf l ++ hs) key = hget hs key := by
+  unfold cookieOf
+  split <;> simp [hget, Ne.symm hk]
+
+theorem hget_cookies (stack : List LayerCfg) (hs : List Header) (key : String) (hk : key ≠ "Set-Cookie") :
+    hget (stack.flatMap cookieOf ++ hs) key = hget hs key := by
+  induction stack with
+  | nil => rfl
+  | cons l ls ih =>
+    rw [List.flatMap_cons, List.append_assoc, hget_cookie1 _ _ _ hk, ih]
+
+theorem expectBody_decorate (stack : List LayerCfg) (x : Resp) (c : Nat) :
+    expectBody c (decorate stack x).headers = expectBody c x.headers := by
+  unfold expectBody
+  rw [decorate_headers, hget_cookies _ _ _ (by decide), hget_cookies _ _ _ (by decide)]
+
+/-- a buffer that sees an explicit final status (or no 1xx) and a response `expectBody` keeps (or an empty body) relays it -/
+theorem relayHeaderCalls_buffer (l : LayerCfg) (x : Result) (hk : l.kind = Kind.buffer)
+    (hx : x.explicit = true ∨ x.infos = [])
+    (hkeep : x.resp.body = [] ∨ expectBody (if x.explicit then x.resp.status else 200) x.resp.headers = true) :
+    relayHeaderCalls l x = { x with infos := [], explicit := true } := by
+  obtain ⟨⟨status, headers, body⟩, inv, seen, hij, fl, infos, ex⟩ := x
+  simp only at hx hkeep
+  unfold relayHeaderCalls bwCode
+  rw [hk]
+  cases ex
+  · have hi : infos = [] := by simpa using hx
+    subst hi
+    rcases hkeep with hb | he
+    · subst hb; simp
+    · simp at he; simp [he]
+  · rcases hkeep with hb | he
+    · subst hb; simp
+    · simp at he; simp [he]
+
 /-- A response that is not hijacked and fits every buffer is relayed outward unchanged apart from the cookies — provided the
-buffers see a final `WriteHeader`, or no 1xx at all (or there is no buffer). -/
+buffers see a final `WriteHeader` or no 1xx at all, and a response whose body `expectBody` keeps (or there is no buffer). -/
 theorem foldr_post_plain (outer : List LayerCfg) (r : Result) (hh : r.hijacked = false)
     (ho : ∀ l ∈ outer, overflows l r.resp.body.length = false)
-    (hd : r.explicit = true ∨ r.infos = [] ∨ ¬ hasBuffer outer) :
+    (hd : r.explicit = true ∨ r.infos = [] ∨ ¬ hasBuffer outer)
+    (hkeep : ¬ hasBuffer outer ∨ r.resp.body = []
+      ∨ (expectBody r.resp.status r.resp.headers = true ∧ (r.explicit = false → r.resp.status = 200))) :
     outer.foldr step r = { r with resp := decorate outer r.resp, infos := infosThrough outer r.infos,
                                   explicit := explicitThrough outer r.explicit,
                                   invoked := attemptsThrough outer r.resp.status * r.invoked } := by
@@ -176,10 +214,15 @@ theorem foldr_post_plain (outer : List LayerCfg) (r : Result) (hh : r.hijacked =
       · exact Or.inl h
       · exact Or.inr (Or.inl h)
       · exact Or.inr (Or.inr (fun ⟨x, hx, e⟩ => h ⟨x, by simp [hx], e⟩))
+    have hkeep' : ¬ hasBuffer ls ∨ r.resp.body = []
+        ∨ (expectBody r.resp.status r.resp.headers = true ∧ (r.explicit = false → r.resp.status = 200)) := by
+      rcases hkeep with h | h
+      · exact Or.inl (fun ⟨x, hx, e⟩ => h ⟨x, by simp [hx], e⟩)
+      · exact Or.inr h
     have hrm := retryMul_plain l
       ⟨decorate ls r.resp, attemptsThrough ls r.resp.status * r.invoked, r.seen, r.hijacked, r.flushed, infosThrough ls r.infos, explicitThrough ls r.explicit⟩
       hh (by simpa [decorate_body] using h1)
-    rw [List.foldr_cons, ih h2 hd', step, hrm]
+    rw [List.foldr_cons, ih h2 hd' hkeep', step, hrm]
     simp only [attemptsThrough, decorate_status, ← Nat.mul_assoc]
     by_cases hk : l.kind = Kind.buffer
     · -- a buffer: it must see an explicit final status or no 1xx
@@ -190,10 +233,37 @@ theorem foldr_post_plain (outer : List LayerCfg) (r : Result) (hh : r.hijacked =
           · right; exact ⟨rfl, by rw [h]; exact infosThrough_nil' ls⟩
           · left; rfl
         · exact absurd ⟨l, by simp, hk⟩ h
+      have hkb : r.resp.body = []
+          ∨ (expectBody r.resp.status r.resp.headers = true ∧ (r.explicit = false → r.resp.status = 200)) := by
+        rcases hkeep with h | h
+        · exact absurd ⟨l, by simp, hk⟩ h
+        · exact h
+      have hex : explicitThrough ls r.explicit = false → r.explicit = false := by
+        intro he; cases hr : r.explicit
+        · rfl
+        · rw [hr, explicitThrough_true] at he; cases he
       rw [infosThrough_buffer l ls _ hk, explicitThrough_buffer l ls _ hk]
-      rcases hcase with he | ⟨he, hi⟩
-      · simp [post, hh, decorate_body, h1, relayHeaderCalls, hk, he]
-      · simp [post, hh, decorate_body, h1, relayHeaderCalls, hk, he, hi]
+      have hpost : ∀ x : Result, x.hijacked = false → overflows l x.resp.body.length = false →
+          post l x = relayHeaderCalls l { x with resp := decorate1 l x.resp } := by
+        intro x h1' h2'; simp [post, h1', h2']
+      rw [hpost _ (by exact hh) (by simpa [decorate_body] using h1)]
+      rw [relayHeaderCalls_buffer l _ hk]
+      · rfl
+      · rcases hcase with he | ⟨_, hi⟩
+        · exact Or.inl he
+        · exact Or.inr hi
+      · rcases hkb with hb | ⟨he, hs⟩
+        · left; simp [decorate1, decorate_body, hb]
+        · right
+          have hc : (if explicitThrough ls r.explicit = true then r.resp.status else 200) = r.resp.status := by
+            cases hx : explicitThrough ls r.explicit
+            · simp [hs (hex hx)]
+            · simp
+          have hdec : (decorate1 l (decorate ls r.resp)).headers = (decorate (l :: ls) r.resp).headers := rfl
+          simp only [decorate1, decorate_status]
+          rw [hc]
+          show expectBody r.resp.status (decorate (l :: ls) r.resp).headers = true
+          rw [expectBody_decorate]; exact he
     · have : relayHeaderCalls l = id := by
         funext x; unfold relayHeaderCalls; cases hkk : l.kind <;> simp_all
       rw [infosThrough_other l ls _ hk, explicitThrough_other l ls _ hk]
@@ -289,5 +359,61 @@ theorem effStack_after (stack : List LayerCfg) (st : List Nat) (hb : ample stack
     obtain ⟨h1, h2⟩ := hb
     have hh : hd0 (leave l.kind (enter l.kind (hd0 st)) :: stateAfter ls st.tail) = leave l.kind (enter l.kind (hd0 st)) := rfl
     simp [effStack, stateAfter, hh, eff_after l _ h1, ih _ h2]
+
+theorem overflows_eff (l : LayerCfg) (n k : Nat) : overflows (eff l n) k = overflows l k := by
+  unfold eff; split <;> rfl
+
+theorem retryable_eff (l : LayerCfg) (n : Nat) (x : Result) : retryable (eff l n) x = retryable l x := by
+  unfold retryable; rw [retryBuf_eff, overflows_eff]
+
+/-- **Link between the stateful loop and the stateless retry.**  In a stack without rate limiters (the only state a request
+leaves behind) every attempt of a retrying buffer meets the same effective configuration, so the real loop of `serveSt` —
+inner stack run again in the state the previous attempt left — gives exactly `serve` on the effective configuration, and the
+effective configuration is unchanged afterwards. -/
+theorem serveSt_noRate (stack : List LayerCfg) (st : List Nat) (h : Req → Script) (req : Req) (c : Caps)
+    (hnr : ∀ l ∈ stack, l.kind ≠ Kind.ratelimit) :
+    (serveSt stack st h req false c).1 = .served (serve (effStack stack st) h req c)
+    ∧ effStack stack (serveSt stack st h req false c).2 = effStack stack st := by
+  induction stack generalizing st c with
+  | nil => simp [serveSt, serve, effStack]
+  | cons l ls ih =>
+    have hl : l.kind ≠ Kind.ratelimit := hnr l (by simp)
+    have hls : ∀ x ∈ ls, x.kind ≠ Kind.ratelimit := fun x hx => hnr x (by simp [hx])
+    have heff : eff l (leave l.kind (enter l.kind (hd0 st))) = eff l (hd0 st) :=
+      eff_after l _ (fun e => absurd e hl)
+    have hhd : ∀ (a : Nat) (t : List Nat), hd0 (a :: t) = a := fun _ _ => rfl
+    by_cases hi : intervenes (eff l (hd0 st)) req = true
+    · simp only [serveSt, serve, effStack, hi, if_true, hhd, List.tail_cons]
+      exact ⟨trivial, trivial⟩
+    · have hi' : intervenes (eff l (hd0 st)) req = false := by simpa using hi
+      obtain ⟨h1o, h1s⟩ := ih st.tail (wrapCaps l.kind c) hls
+      generalize hx1 : serve (effStack ls st.tail) h req (wrapCaps l.kind c) = x1 at h1o
+      have key : ∀ s : List Nat, effStack ls s = effStack ls st.tail →
+          (serveSt ls s h req false (wrapCaps l.kind c)).1 = .served x1
+          ∧ effStack ls (serveSt ls s h req false (wrapCaps l.kind c)).2 = effStack ls st.tail := by
+        intro s hs
+        obtain ⟨a, b⟩ := ih s (wrapCaps l.kind c) hls
+        rw [hs] at a b
+        exact ⟨by rw [a, hx1], b⟩
+      obtain ⟨k1o, k1s⟩ := key st.tail rfl
+      obtain ⟨k2o, k2s⟩ := key _ k1s
+      obtain ⟨k3o, k3s⟩ := key _ k2s
+      by_cases hr : retryable l x1 = true
+      · have hr' : retryable (eff l (hd0 st)) x1 = true := by rw [retryable_eff]; exact hr
+        refine ⟨?_, ?_⟩
+        · simp only [serveSt, hi', serve, effStack, k1o, k2o, k3o, Outcome.retryableBy, hr, if_true, Outcome.addInvoked,
+            eff_kind, hx1, retryMul, hr', post_eff, Bool.false_eq_true, if_false]
+          congr 2
+          have : x1.invoked + (x1.invoked + x1.invoked) = 3 * x1.invoked := by omega
+          simp [this]
+        · simp only [serveSt, hi', k1o, k2o, Outcome.retryableBy, hr, if_true, Bool.false_eq_true, if_false, effStack, hhd,
+            List.tail_cons, heff, k3s]
+      · have hr0 : retryable l x1 = false := by simpa using hr
+        have hr' : retryable (eff l (hd0 st)) x1 = false := by rw [retryable_eff]; exact hr0
+        refine ⟨?_, ?_⟩
+        · simp only [serveSt, hi', serve, effStack, k1o, Outcome.retryableBy, hr0, eff_kind, hx1, retryMul, hr', post_eff,
+            Bool.false_eq_true, if_false]
+        · simp only [serveSt, hi', k1o, Outcome.retryableBy, hr0, Bool.false_eq_true, if_false, effStack, hhd,
+            List.tail_cons, heff, k1s]
 
 end Stack
